@@ -757,7 +757,16 @@ class JsonHistory(History):
 
         # Write empty history directly — flush() would skip empty buffer.
         if self.filename:
-            meta = {"cmds": [], "sessionid": str(self.sessionid)}
+            # Keep the metadata of the running session ("locked", "ts", ...):
+            # without them the garbage collector takes the file for an old,
+            # closed history and deletes it.
+            try:
+                with open(self.filename, newline="\n", encoding="utf-8") as f:
+                    meta = xlj.LazyJSON(f).load()
+            except (JSONDecodeError, ValueError, OSError):
+                meta = {"ts": [time.time(), None], "locked": True}
+            meta["cmds"] = []
+            meta["sessionid"] = str(self.sessionid)
             with open(self.filename, "w", newline="\n", encoding="utf-8") as f:
                 xlj.ljdump(meta, f, sort_keys=True)
 
